@@ -272,11 +272,15 @@ type World struct {
 	seq         int
 	stalled     map[int]chan struct{}
 	mustSurvive map[int]bool
+	noModel     bool // monitors only: the model is not asked (lines are written as comments)
+	concurrent  bool // stimuli were fired concurrently: order-sensitive monitors are switched off
 }
 
 func newWorld(o *out.W, prop string, window, queue int, creds map[string]string) *World {
 	w := &World{o: o, prop: prop, conns: map[int]*fconn{}, clients: map[int]*broker.Client{}, peers: map[int]*peer{},
 		bpublishes: map[int][]string{}, terminates: map[int]int{}, window: window, queue: queue}
+	w.noModel, w.concurrent = nextNoModel, nextNoModel
+	nextNoModel = false
 	w.be = broker.NewMemoryBackend()
 	w.be.ClientInflightMessages = window
 	w.be.SessionQueueSize = queue
@@ -330,9 +334,32 @@ func clonePacket(p packet.Generic) packet.Generic {
 	return q
 }
 
+// nextNoModel makes the next world a monitors-only world (set by the concurrent scripts before newWorld)
+var nextNoModel bool
+
 func (w *World) op(line string) {
 	w.trace = append(w.trace, line)
+	if w.noModel {
+		w.o.Op("# "+line, "# "+line) // echoed by the driver: no model verdict for concurrently fired stimuli
+		return
+	}
 	w.o.Op(line, "ok")
+}
+
+// Fire hands a packet to connection c without waiting for the broker (concurrent scripts; monitors only)
+func (w *World) Fire(c int, p packet.Generic) {
+	w.o.Count("stim/fire/" + wire.TypeName(p.Type()))
+	w.record(ev{kind: "stim-send", conn: c, pkt: clonePacket(p), txt: wire.ShowPacket(p)})
+	fc := w.conns[c]
+	fc.mu.Lock()
+	dead := fc.closed || fc.peerGone
+	fc.mu.Unlock()
+	if !dead {
+		select {
+		case fc.in <- clonePacket(p):
+		default:
+		}
+	}
 }
 
 // delivered is called (under the conn lock) for every packet the broker wrote to a peer
@@ -491,7 +518,15 @@ func (w *World) KeepAliveExpire(c int) {
 }
 
 func (w *World) FailSend(c int, k int) {
-	// no model line: the failure shows up as an `obs sendfail`
+	// no model line: the failure shows up as an `obs sendfail`.
+	// Only one connection at a time has a failure armed: two connections dying in the same step interleave their
+	// cleanups (will fan-out of one towards the session of the other, which is closing: the Go `select` may drop it) at a
+	// granularity below the model's atomic `kill`
+	for _, fc := range w.conns {
+		fc.mu.Lock()
+		fc.failAt = 0
+		fc.mu.Unlock()
+	}
 	w.conns[c].mu.Lock()
 	w.conns[c].failAt = k
 	w.conns[c].mu.Unlock()
